@@ -62,6 +62,9 @@ type Engine struct {
 	structSorts  map[string]string
 	sortNames    map[string]bool
 	initHeaps    map[string]string
+	frameLinks   map[int]frameLink
+	preserveAllCall bool // the call being executed is trusted to change nothing that existed before it
+	linked       map[string]bool
 	heapSorts    map[string]string
 	typeTags     map[string]int
 	obls         []*Obligation
@@ -89,7 +92,7 @@ type storeRec struct {
 }
 
 func newEngine(w *World, fn *ssa.Function) *Engine {
-	e := &Engine{w: w, sc: newScript(), structSorts: map[string]string{}, sortNames: map[string]bool{}, initHeaps: map[string]string{},
+	e := &Engine{w: w, sc: newScript(), structSorts: map[string]string{}, sortNames: map[string]bool{}, initHeaps: map[string]string{}, frameLinks: map[int]frameLink{}, linked: map[string]bool{},
 		heapSorts: map[string]string{}, typeTags: map[string]int{}, occ: map[string]int{}, topFn: fn, noteSet: map[string]bool{}, specUF: map[string]bool{}}
 	return e
 }
@@ -224,7 +227,44 @@ func (e *Engine) heapIn(st *State, name, sort string) string {
 	e.sc.emit(fmt.Sprintf("(declare-const %s %s)", c, sort))
 	e.initHeaps[key] = c
 	e.heapSorts[name] = sort
+	if fl, ok := e.frameLinks[st.Epoch]; ok && name != allocHeap && !strings.HasPrefix(name, "GH_") {
+		hp := e.heapIn(fl.pre, name, sort)
+		e.sc.assert(frameEq(c, hp, sort, name, fl.alloc))
+		e.linked[key] = true
+	}
 	return c
+}
+
+// frameLink: the epoch was created by a call that is trusted to change nothing that existed before it.
+type frameLink struct {
+	pre   *State
+	alloc string
+}
+
+func frameEq(hq, hp, srt, name, alloc string) string {
+	if strings.HasPrefix(name, "G_") || !strings.HasPrefix(srt, "(Array Int ") {
+		return "(= " + hq + " " + hp + ")"
+	}
+	return "(forall ((r Int)) (! (=> (<= r " + alloc + ") (= (select " + hq + " r) (select " + hp + " r))) :pattern ((select " + hq + " r))))"
+}
+
+// linkHeap: the heap of the (fresh) epoch of st agrees with the pre-call heap on everything allocated before the call.
+func (e *Engine) linkHeap(st *State, name, srt string) {
+	if _, ok := st.Heaps[name]; ok {
+		fl := e.frameLinks[st.Epoch]
+		e.sc.assert(frameEq(st.Heaps[name], e.heapIn(fl.pre, name, srt), srt, name, fl.alloc))
+		return
+	}
+	key := fmt.Sprintf("%s@%d", name, st.Epoch)
+	if c, ok := e.initHeaps[key]; ok {
+		if !e.linked[key] {
+			fl := e.frameLinks[st.Epoch]
+			e.sc.assert(frameEq(c, e.heapIn(fl.pre, name, srt), srt, name, fl.alloc))
+			e.linked[key] = true
+		}
+		return
+	}
+	e.heapIn(st, name, srt) // declares and links
 }
 
 func (e *Engine) setHeapIn(st *State, name, sort, term string) {
